@@ -31,6 +31,9 @@ func init() {
 	register(&Rule{ID: "R39", Name: "VALIDATE-FIRST", Floor: 3,
 		Text: "in every exported QFrame method that validates column names (a comma-ok lookup in the frame's column map whose miss edge returns an error frame, directly, in a loop, or through a validator call such as checkColumns), no success return is reachable before the validation completed - except returns guarded by the receiver's Err or by emptiness of the very slice being validated",
 		Run:  runR39})
+	register(&Rule{ID: "R51", Name: "SELECT-IDENTITY", Floor: 1,
+		Text: "QFrame.Select returns its receiver unchanged only when the receiver is errored or under a guard whose condition depends on the elements of the requested column list (its length alone cannot establish that the requested order is the current one); every other success return is the freshly built projection or the empty frame",
+		Run:  runR51})
 	register(&Rule{ID: "R43", Name: "APPLY-RESTORE", Floor: 1,
 		Text: "QFrame.FilteredApply returns a frame whose index field was last assigned the receiver's own index (the filtered index is used only while applying)",
 		Run:  runR43})
@@ -1881,4 +1884,89 @@ func instrReaches(a, b ssa.Instruction) bool {
 		}
 	}
 	return false
+}
+
+// ---------- R51 ----------
+
+func runR51(c *Ctx) {
+	p := c.P
+	fn := p.Func("", "QFrame.Select")
+	if fn == nil {
+		c.undecided("anchor|Select", "-", "QFrame.Select not found")
+		return
+	}
+	recv, cols := fn.Params[0], fn.Params[1]
+	dependsOnElems := func(v ssa.Value) bool {
+		seen := map[ssa.Value]bool{}
+		found := false
+		var walk func(v ssa.Value, d int)
+		walk = func(v ssa.Value, d int) {
+			if v == nil || seen[v] || d > 12 || found {
+				return
+			}
+			seen[v] = true
+			if ia, ok := v.(*ssa.IndexAddr); ok && rootValue(ia.X) == ssa.Value(cols) {
+				found = true
+				return
+			}
+			if call, ok := v.(*ssa.Call); ok {
+				// a helper that is handed the list itself may inspect its elements
+				for _, a := range call.Call.Args {
+					if rootValue(a) == ssa.Value(cols) && builtinName(call) == "" {
+						found = true
+						return
+					}
+				}
+			}
+			if in, ok := v.(ssa.Instruction); ok {
+				var ops []*ssa.Value
+				for _, o := range in.Operands(ops) {
+					if o != nil && *o != nil {
+						walk(*o, d+1)
+					}
+				}
+			}
+		}
+		walk(v, 0)
+		return found
+	}
+	n := 0
+	eachInstr(fn, func(in ssa.Instruction) {
+		ret, ok := in.(*ssa.Return)
+		if !ok {
+			return
+		}
+		ld, ok := ret.Results[0].(*ssa.UnOp)
+		if !ok || !rootIsParam(ld.X, recv) {
+			return
+		}
+		n++
+		key := fname(fn) + "|return of the receiver"
+		// the branch that directly decides to return the receiver
+		okG := false
+		blk := ret.Block()
+		if len(blk.Preds) == 1 {
+			if iff, ok := blk.Preds[0].Instrs[len(blk.Preds[0].Instrs)-1].(*ssa.If); ok {
+				cond, _ := unNot(iff.Cond, true)
+				if dependsOnElems(cond) {
+					okG = true
+				}
+				if cmp, ok := cond.(*ssa.BinOp); ok {
+					for _, o := range []ssa.Value{cmp.X, cmp.Y} {
+						if fld, _ := fieldOf(o); fld != nil && fld.Name() == "Err" {
+							okG = true
+						}
+					}
+				}
+			}
+		}
+		if okG {
+			c.ok(key, p.instrPos(ret), "only for an errored frame / under a test of the requested names")
+		} else {
+			c.bad(key, p.instrPos(ret), "the receiver is returned as the projection without any test of the requested column names: Select(all columns in another order) keeps the old order")
+		}
+	})
+	if n == 0 {
+		c.undecided(fname(fn)+"|return of the receiver", p.pos(fn.Pos()), "no return of the receiver found (not even for an errored frame)")
+	}
 }
